@@ -329,6 +329,87 @@ fn stream_err(e: &s2n_quic::stream::Error) -> (String, Option<u64>) {
     }
 }
 
+fn io_err(e: &std::io::Error) -> (String, Option<u64>) {
+    match e.get_ref().and_then(|i| i.downcast_ref::<s2n_quic::stream::Error>()) {
+        Some(se) => stream_err(se),
+        None => (format!("io:{:?}", e.kind()), None),
+    }
+}
+
+fn write_api_name(a: WriteApi) -> &'static str {
+    match a {
+        WriteApi::Send => "api.write.send",
+        WriteApi::SendVectored(_) => "api.write.send_vectored",
+        WriteApi::Sink => "api.write.sink",
+        WriteApi::FutWrite => "api.write.futures_write",
+        WriteApi::FutWriteVectored(_) => "api.write.futures_write_vectored",
+        WriteApi::TokioWrite => "api.write.tokio_write",
+        WriteApi::TokioWriteVectored(_) => "api.write.tokio_write_vectored",
+    }
+}
+
+fn read_api_name(a: ReadApi) -> &'static str {
+    match a {
+        ReadApi::Receive => "api.read.receive",
+        ReadApi::ReceiveVectored(_) => "api.read.receive_vectored",
+        ReadApi::StreamNext => "api.read.stream_next",
+        ReadApi::FutRead(_) => "api.read.futures_read",
+        ReadApi::FutReadVectored(..) => "api.read.futures_read_vectored",
+        ReadApi::TokioRead(_) => "api.read.tokio_read",
+    }
+}
+
+/// split `data` into up to `k` non-empty pieces at rng-chosen points
+fn split_pieces(data: &[u8], k: usize, rng: &mut Rng) -> Vec<Vec<u8>> {
+    let k = k.max(1).min(data.len().max(1));
+    let mut cuts: Vec<usize> = (0..k - 1).map(|_| rng.range(0, data.len() as u64) as usize).collect();
+    cuts.push(0);
+    cuts.push(data.len());
+    cuts.sort_unstable();
+    cuts.dedup();
+    cuts.windows(2).map(|w| data[w[0]..w[1]].to_vec()).filter(|v| !v.is_empty()).collect()
+}
+
+/// hand `data` to the stream through the chosen interface; returns how many bytes the
+/// interface says it accepted (the caller continues after exactly that many)
+async fn write_some(s: &mut SendStream, api: WriteApi, data: Vec<u8>, rng: &mut Rng) -> Result<usize, String> {
+    let n = data.len();
+    match api {
+        WriteApi::Send => s.send(Bytes::from(data)).await.map(|()| n).map_err(|e| stream_err(&e).0),
+        WriteApi::SendVectored(k) => {
+            let mut chunks: Vec<Bytes> = split_pieces(&data, k, rng).into_iter().map(Bytes::from).collect();
+            s.send_vectored(&mut chunks).await.map(|()| n).map_err(|e| stream_err(&e).0)
+        }
+        WriteApi::Sink => {
+            use futures::SinkExt;
+            s.send_all(&mut futures::stream::iter([Ok(Bytes::from(data))]))
+                .await
+                .map(|()| n)
+                .map_err(|e| stream_err(&e).0)
+        }
+        WriteApi::FutWrite => {
+            use futures::AsyncWriteExt;
+            s.write(&data).await.map_err(|e| io_err(&e).0)
+        }
+        WriteApi::FutWriteVectored(k) => {
+            use futures::AsyncWriteExt;
+            let pieces = split_pieces(&data, k, rng);
+            let bufs: Vec<std::io::IoSlice> = pieces.iter().map(|p| std::io::IoSlice::new(p)).collect();
+            s.write_vectored(&bufs).await.map_err(|e| io_err(&e).0)
+        }
+        WriteApi::TokioWrite => {
+            use tokio::io::AsyncWriteExt;
+            s.write(&data).await.map_err(|e| io_err(&e).0)
+        }
+        WriteApi::TokioWriteVectored(k) => {
+            use tokio::io::AsyncWriteExt;
+            let pieces = split_pieces(&data, k, rng);
+            let bufs: Vec<std::io::IoSlice> = pieces.iter().map(|p| std::io::IoSlice::new(p)).collect();
+            s.write_vectored(&bufs).await.map_err(|e| io_err(&e).0)
+        }
+    }
+}
+
 async fn sender(cx: AppCx, ep: EpId, key: FlowKey, plan: FlowPlan, s: SendStream) {
     cx.op(ep, AppOp::TaskStart { flow: key, sender: true });
     sender_inner(cx.clone(), ep, key, plan, s).await;
@@ -357,22 +438,18 @@ async fn sender_inner(cx: AppCx, ep: EpId, key: FlowKey, plan: FlowPlan, mut s: 
             n = n.min(at.min(plan.len) - off);
         }
         let n = n.max(1) as usize;
-        let data = Bytes::from(vq_util::prf_vec(prf, off, n));
+        let data = vq_util::prf_vec(prf, off, n);
         cx.op(ep, AppOp::SendBegin { flow: key, off, len: n });
-        match s.send(data).await {
-            Ok(()) => {
-                cx.op(ep, AppOp::SendOk { flow: key, off, len: n });
-                off += n as u64;
+        match write_some(&mut s, plan.write_api, data, &mut rng).await {
+            Ok(accepted) => {
+                // the interface reports how much it took: exactly these bytes count as
+                // written, the task goes on from there (a short write is legal)
+                cx.op(ep, AppOp::SendOk { flow: key, off, len: accepted });
+                cx.w.lock().unwrap().ctx.summary.count(write_api_name(plan.write_api), 1);
+                off += accepted as u64;
             }
-            Err(e) => {
-                cx.op(
-                    ep,
-                    AppOp::SendErr {
-                        flow: key,
-                        off,
-                        err: stream_err(&e).0,
-                    },
-                );
+            Err(err) => {
+                cx.op(ep, AppOp::SendErr { flow: key, off, err });
                 return;
             }
         }
@@ -436,6 +513,7 @@ async fn receiver(cx: AppCx, ep: EpId, key: FlowKey, plan: FlowPlan, r: ReceiveS
 async fn receiver_inner(cx: AppCx, ep: EpId, key: FlowKey, plan: FlowPlan, mut r: ReceiveStream) {
     let mut off = 0u64;
     let mut chunks_seen = 0u32;
+    let mut reads = 0u32;
     cx.op(ep, AppOp::RecvBegin { flow: key });
     loop {
         if let ReadMode::StopSending { at, code } = plan.read {
@@ -445,22 +523,82 @@ async fn receiver_inner(cx: AppCx, ep: EpId, key: FlowKey, plan: FlowPlan, mut r
                 return;
             }
         }
-        let res: Result<(Vec<Bytes>, bool), s2n_quic::stream::Error> = match plan.read {
-            ReadMode::Vectored(n) => {
+        reads += 1;
+        if plan.read_pause_every > 0 && reads % plan.read_pause_every == 0 {
+            delay(Duration::from_micros(plan.read_pause_us)).await;
+        }
+        let api = match plan.read {
+            ReadMode::Vectored(n) => ReadApi::ReceiveVectored(n),
+            _ => plan.read_api,
+        };
+        cx.w.lock().unwrap().ctx.summary.count(read_api_name(api), 1);
+        let res: Result<(Vec<Bytes>, bool), (String, Option<u64>)> = match api {
+            ReadApi::ReceiveVectored(n) => {
                 let mut slots = vec![Bytes::new(); n.max(1)];
                 match r.receive_vectored(&mut slots).await {
                     Ok((count, open)) => {
                         slots.truncate(count);
                         Ok((slots, open))
                     }
-                    Err(e) => Err(e),
+                    Err(e) => Err(stream_err(&e)),
                 }
             }
-            _ => match r.receive().await {
+            ReadApi::Receive => match r.receive().await {
                 Ok(Some(c)) => Ok((vec![c], true)),
                 Ok(None) => Ok((vec![], false)),
-                Err(e) => Err(e),
+                Err(e) => Err(stream_err(&e)),
             },
+            ReadApi::StreamNext => {
+                use futures::StreamExt;
+                match r.next().await {
+                    Some(Ok(c)) => Ok((vec![c], true)),
+                    None => Ok((vec![], false)),
+                    Some(Err(e)) => Err(stream_err(&e)),
+                }
+            }
+            ReadApi::FutRead(sz) => {
+                use futures::AsyncReadExt;
+                let mut buf = vec![0u8; sz.max(1)];
+                match r.read(&mut buf).await {
+                    Ok(0) => Ok((vec![], false)),
+                    Ok(n) => Ok((vec![Bytes::copy_from_slice(&buf[..n])], true)),
+                    Err(e) => Err(io_err(&e)),
+                }
+            }
+            ReadApi::FutReadVectored(k, sz) => {
+                use futures::AsyncReadExt;
+                let mut store = vec![vec![0u8; sz.max(1)]; k.max(1)];
+                let res = {
+                    let mut bufs: Vec<std::io::IoSliceMut> =
+                        store.iter_mut().map(|b| std::io::IoSliceMut::new(b)).collect();
+                    r.read_vectored(&mut bufs).await
+                };
+                match res {
+                    Ok(0) => Ok((vec![], false)),
+                    Ok(mut n) => {
+                        let mut out = vec![];
+                        for b in &store {
+                            let take = n.min(b.len());
+                            if take == 0 {
+                                break;
+                            }
+                            out.push(Bytes::copy_from_slice(&b[..take]));
+                            n -= take;
+                        }
+                        Ok((out, true))
+                    }
+                    Err(e) => Err(io_err(&e)),
+                }
+            }
+            ReadApi::TokioRead(sz) => {
+                use tokio::io::AsyncReadExt;
+                let mut buf = vec![0u8; sz.max(1)];
+                match r.read(&mut buf).await {
+                    Ok(0) => Ok((vec![], false)),
+                    Ok(n) => Ok((vec![Bytes::copy_from_slice(&buf[..n])], true)),
+                    Err(e) => Err(io_err(&e)),
+                }
+            }
         };
         match res {
             Ok((chunks, open)) => {
@@ -475,8 +613,7 @@ async fn receiver_inner(cx: AppCx, ep: EpId, key: FlowKey, plan: FlowPlan, mut r
                     return;
                 }
             }
-            Err(e) => {
-                let (err, reset_code) = stream_err(&e);
+            Err((err, reset_code)) => {
                 cx.op(
                     ep,
                     AppOp::RecvErr {
